@@ -99,6 +99,7 @@ void sync_reset_run();
 static int sim_mutex_lock(uintptr_t m, bool try_only) {
   Thread* me = self;
   sync_point(P_MUTEX, m);
+  check_sync_object(m, sizeof(pthread_mutex_t));
   for (;;) {
     Mtx& x = mtx()[m];
     if (x.owner < 0) { x.owner = me->id; hb_acquire_obj(m); return 0; }
@@ -110,6 +111,7 @@ static int sim_mutex_lock(uintptr_t m, bool try_only) {
 static int sim_mutex_unlock(uintptr_t m) {
   Thread* me = self;
   sync_point(P_MUTEX, m);
+  check_sync_object(m, sizeof(pthread_mutex_t));
   Mtx& x = mtx()[m];
   if (x.owner != me->id) return EPERM;
   hb_release_obj(m);
@@ -134,6 +136,7 @@ static int64_t clock_now(clockid_t id) {
 static int sim_cond_wait(uintptr_t c, uintptr_t m, int64_t deadline_virtual) {
   Thread* me = self;
   sync_point(P_COND, c);
+  check_sync_object(c, sizeof(pthread_cond_t));
   // atomically release the mutex and wait
   Mtx& x = mtx()[m];
   if (x.owner == me->id) { hb_release_obj(m); x.owner = -1; wake_waiters(ST_MUTEX, m, MAXT, W_WOKEN); }
@@ -318,6 +321,7 @@ long syscall(long nr, ...) {
   int op = (int)a2 & ~(FUTEX_PRIVATE_FLAG | FUTEX_CLOCK_REALTIME);
   if (op == FUTEX_WAIT || op == FUTEX_WAIT_BITSET) {
     sync_point(P_FUTEX_WAIT, addr);
+    check_sync_object(addr, 4);
     uint32_t cur = *(volatile uint32_t*)addr;
     if (cur != (uint32_t)a3) { errno = EAGAIN; return -1; }
     const struct timespec* ts = (const struct timespec*)a4;
@@ -341,6 +345,7 @@ long syscall(long nr, ...) {
   }
   if (op == FUTEX_WAKE || op == FUTEX_WAKE_BITSET) {
     sync_point(P_FUTEX_WAKE, addr);
+    check_sync_object(addr, 4);
     int n = 0, max = (int)a3;
     bool any = false;
     for (int i = 0; i < G.nth && n < max; i++)
